@@ -409,6 +409,19 @@ class BuiltinMixin:
                 s.hwrite("$dval", r, val)
                 s.hwrite("$dlen", r, m)
                 outs.append(Out("val", s, d))
+            elif kind == "set" and not conds:
+                r = s.new_ref()
+                s.assume(clsof(r) == CLS_SET)
+                dom = fresh("scdom", z3.ArraySort(V, BoolS))
+                x = fresh("x", V)
+                ez = self.to_z(s, ev_)
+                s.assume(z3.ForAll([j], z3.Implies(z3.And(0 <= j, j < n), z3.And(side + [z3.Select(dom, ez)]))))
+                s.assume(z3.ForAll([x], z3.Implies(z3.Select(dom, x), z3.Exists([j], z3.And([0 <= j, j < n] + side + [ez == x])))))
+                m = fresh("sclen", IntS)
+                s.assume(z3.And(m >= 0, m <= n, z3.Implies(n > 0, m > 0)))
+                s.hwrite("$ddom", r, dom)
+                s.hwrite("$dlen", r, m)
+                outs.append(Out("val", s, Val(V.R(r), th=TH("Set", [ev_.th or TH("Any")]))))
             else:
                 raise Unsupported(f"{kind} comprehension with filter", node)
         return outs
@@ -583,6 +596,17 @@ class BuiltinMixin:
     # ---- set
     def bm_set_add(self, st, recv, args, kwargs, node):
         self.dict_store(st, recv, args[0], None)
+        return [Out("val", st, vnone())]
+
+    def bm_set_add_if(self, st, recv, args, kwargs, node):
+        """specification-only: s.add_if(cond, x)  ==  if cond: s.add(x)   (no fork)"""
+        r = V.r(recv.z)
+        c = self.truthy(st, args[0])
+        kz = self.to_z(st, args[1])
+        dom = st.hread("$ddom", r)
+        present = z3.Select(dom, kz)
+        st.hwrite("$dlen", r, z3.simplify(z3.If(z3.And(c, z3.Not(present)), st.hread("$dlen", r) + 1, st.hread("$dlen", r))))
+        st.hwrite("$ddom", r, z3.If(c, z3.Store(dom, kz, True), dom))
         return [Out("val", st, vnone())]
 
     def bm_set_discard(self, st, recv, args, kwargs, node):
